@@ -29,7 +29,13 @@ def main():
                 "engine": "mc (bounded-exhaustive explorer, /verif/mc)",
                 "level_claimed": {
                     "category": "model_checking",
-                    "text": d.LEVEL_TEXT if hasattr(d, "LEVEL_TEXT") else d.TECHNIQUE,
+                    "text": (
+                        d.TECHNIQUE
+                        + ". Exhaustive within the bounds recorded in the evidence (no sampling): every enumerated input / history / "
+                        "schedule / fault executes the real eyecite code from /repo's working tree, so a clean run is a coverage "
+                        "statement over that space; a violation is re-executed twice from its recorded case before it is reported and "
+                        "comes with a replay file and a plain unittest."
+                    ),
                     "design_ref": f"DESIGN.md section 4, {pid}",
                 },
                 "level_note": "; ".join(d.ASSUMPTIONS),
